@@ -63,6 +63,16 @@ CHECKS = {
             rapid("anyfallback", "^TestC03AnyFallback$", 100000, 1),
         ],
     },
+    "C05": {
+        "quick": [
+            plain("regress", "^TestRegressC05"),
+            rapid("levels", "^TestC05Levels$", 15000, 4),
+        ],
+        "thorough": [
+            plain("regress", "^TestRegressC05"),
+            rapid("levels", "^TestC05Levels$", 300000, 16, timeout=3000),
+        ],
+    },
     "C07": {
         "quick": [
             plain("regress", "^TestRegressC07"),
@@ -129,6 +139,7 @@ CHECKS = {
 LEVELS = {"C10": "fault_enumeration"}
 
 RULES = {
+    "C05": "cases = core-composition trees (depth <= 4, tees of 0-3 branches) of observer and JSON IO leaves under tee / increase-level / hooks / pass-all sampler / lazy-with / With wrappers, each enabler an arbitrary subset of all 256 level values (monotone, non-monotone, empty) or a shared AtomicLevel; then a rapid state-machine history: log at any of the 256 levels through Log, Check+Write, level methods, Sugar Log/Logw/Logf/Logln, zapgrpc, slog handler; SetLevel on a shared AtomicLevel to any value; derive children (With, Named, WithLazy, WithOptions(IncreaseLevel/Hooks)); read Enabled for all 256 values, Logger.Level, LevelOf, gRPC V, slog Enabled. Reference model written from the statement decides deliveries, hook calls and marshaling counts after every op. Non-trivial = tree depth >= 2 with a tee whose branches differ in enablement for the logged level or a hook behind a tee, or an AtomicLevel change between two logs. Distinct = distinct (tree shape with enabler kinds, number of derived loggers, class flags).",
     "C08": "cases = metamorphic: a probe call P (generated EncoderConfig, JSON or console, With context, field tree with failing members, any level incl. Panic/Fatal with returning hooks, caller+stack on/off, call depth 0/3/70) issued from one source line before and after a generated history H (1-14 ops on OTHER loggers: logs of very different sizes, namespaces left open, reflected values, error arrays, deep stack captures, terminal levels with returning hooks, encoder clones, double GC, pool poisoning with a sentinel through internal/bufferpool), after GC, after H again; concurrent variant with 2-6 goroutines running histories while P is observed. Oracle = byte-identical output and identical side effects (sink writes, terminal hook and entry hook counts); sentinel never visible. Non-trivial = H uses at least one pool and contains a buffer > 1KiB. Distinct = distinct (probe shape, multiset of history op kinds, probe field kinds).",
     "C07": "cases = rapid state machine over a growing tree of loggers: derive from a random node by With / WithLazy / Named / WithOptions(Fields) / Sugar / Desugar (sugared equivalents included), fields incl. namespaces, Spec values and objects backed by a marshaler the machine mutates between steps; log through random nodes; GC; finally log through every node in a drawn order; over 10 core compositions (JSON, console, observer, tees, sampler, hooked, level-increased, lazy, all combined). Model = per-node ordered path fields with explicit evaluation time (With: at derivation; WithLazy: at first use of the node or of any descendant core). Non-trivial = a log through a node whose parent has context and >= 2 children after >= 3 derivations, or a lazy node pending while its marshaler was mutated. Distinct = distinct (core kind, derivation tree shape).",
     "C03": "cases = one row per exported constructor of field.go/array.go/error.go/exp/zapfield (completeness checked against the parsed source at run time) with full-range values and boundary tables, through the value, pointer, slice and zap.Any routes; field lists with nested marshalers; values that zap.Any does not special-case. Oracle = independent recording encoder (exact value, bits, instant+zone, byte-identical slices, explicit null, no call for nil errors), Any vs typed constructor agreement, Equals laws. Non-trivial = boundary/extreme value, pointer, slice, nil pointer, time or Any route. Distinct = distinct (constructor kind, value class, ptr, any) resp. kind multisets. excluded_known counts reflexivity assertions skipped for K1 inputs.",
@@ -150,6 +161,11 @@ ASSUMPTIONS = {
 TRUST = "Trusted base: Go toolchain/runtime, rapid's generators and shrinker, the reference model/oracle code in /verif/harness/props, and the standard-library packages used as reference implementations. Search-based: absence of a counterexample in the generated cases is not a proof."
 
 META = {
+    "C05": {
+        "technique": "model-based stateful property testing (rapid t.Repeat): generated core compositions with arbitrary level subsets vs an explicit delivery/hook/enablement reference model",
+        "level_text": "After every generated operation each leaf must have received exactly the modelled entries (count, level, message), each hook must have fired exactly once per entry its wrapped core accepted and never otherwise, the call-site marshaler must have run once per JSON destination and never for a disabled entry, NewIncreaseLevelCore/IncreaseLevel must fail exactly when they would widen, Enabled(l) must equal the model for all 256 values and Level/LevelOf/V must report the least enabled level. AtomicLevel changes are interleaved with log calls through loggers derived before and after the change. Exploration over unbounded compositions and histories.",
+        "level_note": TRUST + " For out-of-range levels a threshold enabler may report its own threshold from Level(); this is accepted when that level is enabled and hides no enabled in-range level (DESIGN.md C05).",
+    },
     "C08": {
         "technique": "metamorphic property testing (rapid): same probe call before/after generated histories, GC and pool poisoning must be byte-identical; concurrent variant under the race detector",
         "level_text": "The probe's bytes and side effects must be a function of its inputs only: they are compared before and after generated histories on other loggers that exercise every internal pool (buffers, JSON encoders, slice encoders, checked entries, error-array wrappers, stack storage), after forced GCs and after poisoning pooled buffers with a sentinel; in the thorough tier also while other goroutines keep producing traffic, under -race. Exploration: histories are unbounded and pool reuse is best-effort, so sequential cases pin GOMAXPROCS(1) to make a freed object the next one handed out.",
